@@ -584,6 +584,7 @@ package prunner
 //@   loop 4 invariant [C11.observedIdle] forall p string :: $seen[p] ==> hasRunningPipelines || !pipeRunning(r, p)
 //@   at call RUnlock#1: assert [C11.observedIdle] !hasRunningPipelines ==> forall p string :: !pipeRunning(r, p)
 //@   loop 4 invariant [ri] RI(r) && r.isShuttingDown && Tjobs() && $held == 1
+//@   loop 5 complete
 //@   loop 5 invariant [ri] RI(r) && r.isShuttingDown && Tjobs() && sinceLock(Tjobs()) && sinceLock(same(PipelineJob.Start)) && $held == 2
 //@ pure wlEntryC(j *PipelineJob, p string) bool = j != nil && allocated(j) && j.Pipeline == p && j.Start == nil && !j.Completed
 
